@@ -78,13 +78,10 @@ class Insert(ASTNode):
 
     @staticmethod
     def column_to_str(name):
-        # column names are kept as plain strings: a name that is not a plain word has to be back-quoted
-        # (names that still carry their back-quotes, as the MindsDB grammar keeps them, are printed as they are)
-        if not isinstance(name, str):
+        # column names are kept as plain strings: quote them like any identifier part (`a b`, reserved words)
+        if not isinstance(name, str) or name == '':
             return str(name)
-        if no_wrap_identifier_regex.fullmatch(name) or (len(name) > 2 and name[0] == '`' and name[-1] == '`'):
-            return name
-        return f'`{name}`'
+        return Identifier(parts=[name]).to_string()
 
     def get_string(self, *args, **kwargs):
         if self.columns is not None:
